@@ -81,6 +81,12 @@ func trees(thorough bool) []Tree {
 		comp(comp(o1, un), o2), comp(o1, comp(un, o2)), comp(comp(o1, o1), comp(o2, o0)),
 		comp(o1, comp(o0, o0), o1), comp(comp(o1, c0), comp(o1, un)), comp(o2, comp(o1, un)),
 	)
+	// an unlimited part shorter than the programs' sleep: its window is over when the caller wakes up
+	un5 := Tree{Kind: "unlimited", D: 500}
+	// instance_step whose 'to' lies below 'from' (accepted by validation): 'from' tokens at the start, nothing else
+	isDown := Tree{Kind: "istep", A: 3, B: 1, C: 2, D: 500}
+	out = append(out, isDown, comp(o1, isDown), comp(isDown, c0, o1))
+	out = append(out, comp(o1, un5, o2), comp(un5, o2), comp(o1, un5), comp(comp(o1, un5), o2), comp(o2, un5, o1), comp(o1, comp(un5, o1)), comp(c0, un5, o1))
 	if thorough {
 		for _, a := range []Tree{o1, un, c0} {
 			for _, b := range []Tree{o1, un, o0} {
